@@ -47,18 +47,18 @@ func b01(b bool) string {
 func genOffsets(r *rng, n int, tier string, emit func(string)) {
 	// directed prefix: every model branch that matters, independent of luck
 	for _, c := range []string{
-		"5 1 100 0 0 ; 0 10 0 15 0",                    // lag == max: normal
-		"5 1 100 0 0 ; 0 10 0 16 0",                    // lag == max+1: capped, request [10,11)
-		"5 1 3 0 0 ; 0 10 0 30 0",                      // trimmed request
-		"5 0 100 0 0 ; 0 10 0 30 0",                    // recovery disabled
-		"5 1 100 0 0 ; 0 a 0 30 0 ; 1 -1001 0 30 0",    // absent / invalid
-		"5 1 100 1 0 ; 0 10 0 30 0",                    // committed query fails
-		"5 1 100 0 0 ; 0 10 0 30 0 ; 1 10 0 30 1",      // watermark query fails on second partition
-		"5 1 100 0 1 ; 0 10 0 30 0",                    // assign fails
-		"0 1 100 0 0 ; 0 30 0 30 0 ; 1 29 0 30 0",      // maxLag 0
+		"5 1 100 0 0 ; 0 10 0 15 0",                                   // lag == max: normal
+		"5 1 100 0 0 ; 0 10 0 16 0",                                   // lag == max+1: capped, request [10,11)
+		"5 1 3 0 0 ; 0 10 0 30 0",                                     // trimmed request
+		"5 0 100 0 0 ; 0 10 0 30 0",                                   // recovery disabled
+		"5 1 100 0 0 ; 0 a 0 30 0 ; 1 -1001 0 30 0",                   // absent / invalid
+		"5 1 100 1 0 ; 0 10 0 30 0",                                   // committed query fails
+		"5 1 100 0 0 ; 0 10 0 30 0 ; 1 10 0 30 1",                     // watermark query fails on second partition
+		"5 1 100 0 1 ; 0 10 0 30 0",                                   // assign fails
+		"0 1 100 0 0 ; 0 30 0 30 0 ; 1 29 0 30 0",                     // maxLag 0
 		"9223372036854775807 1 100 0 0 ; 0 0 0 4611686018427387904 0", // default maxLag
 		"5 1 1 0 0 ; 0 4611686018427387900 0 4611686018427387904 0",
-		"5 1 100 0 0 ;",                                // no partitions
+		"5 1 100 0 0 ;",                                              // no partitions
 		"5 1 9223372036854775807 0 0 ; 0 10 0 4611686018427387904 0", // unlimited maxrecords
 		"5 1 9223372036854775800 0 0 ; 0 0 0 100 0 ; 1 50 0 100 0",
 	} {
@@ -83,6 +83,7 @@ func genOffsets(r *rng, n int, tier string, emit func(string)) {
 			perm[j], perm[k] = perm[k], perm[j]
 		}
 		parts := []string{fmt.Sprintf("%d %s %d %s %s", maxLag, b01(recEn), maxRec, b01(cerr), b01(aerr))}
+		anyWerr := false
 		for j := 0; j < np; j++ {
 			high := r.pick(0, 1, 10, 100, 5000, 1<<40, 1<<62, (1<<62)-3)
 			if r.chance(50) {
@@ -119,10 +120,16 @@ func genOffsets(r *rng, n int, tier string, emit func(string)) {
 				committed = strconv.FormatInt(r.rangeI(0, high+3), 10)
 			}
 			low := r.rangeI(0, 5)
-			parts = append(parts, fmt.Sprintf("%d %s %d %d %s", perm[j], committed, low, high, b01(r.chance(4))))
+			werr := r.chance(4)
+			anyWerr = anyWerr || werr
+			parts = append(parts, fmt.Sprintf("%d %s %d %d %s", perm[j], committed, low, high, b01(werr)))
 		}
 		if r.chance(30) && np > 0 {
-			parts = append(parts, "@ "+r.pickS("w", "wr", "wr", "c", "cr", "ar", "or", "or", "o"))
+			h := r.pickS("w", "wr", "wr", "c", "cr", "ar", "or", "or", "o")
+			if maxRec >= 1<<62 && !cerr && !anyWerr && r.chance(40) { // (a judged call that stops early files less than the earlier one)
+				h = r.pickS("f", "fr")
+			}
+			parts = append(parts, "@ "+h)
 		}
 		emit(strings.Join(parts, " ; "))
 	}
@@ -180,6 +187,20 @@ func execOffsets(input string) string {
 		// sentinel ownership, so that "ownership not updated" is observable
 		rc.SetAssignedPartitions([]kafka.TopicPartition{{Topic: &topic, Partition: 999}})
 	}
+	// the lag limit reaches the source the way Setup gets it: checkConfig (which defaults an absent key), then Atoi
+	cfgm := map[string]string{"brokers": "b", "consumergroup": "g", "topic": "t", "buffersize": "1"}
+	if !(maxLag == math.MaxInt64 && len(input)%2 == 0) {
+		cfgm["maxpartitionlag"] = strconv.FormatInt(maxLag, 10)
+	}
+	if maxLag >= 0 {
+		probe := kafkaconsumer.VerifNewKafkaConsumer(newScriptedConsumer(), topic, sendCh, 0, m, nil, ctx)
+		if err := probe.VerifCheckConfig(cfgm); err != nil {
+			return "config-rejected " + err.Error()
+		}
+		if eff, err := strconv.Atoi(cfgm["maxpartitionlag"]); err == nil {
+			maxLag = int64(eff)
+		}
+	}
 	kc := kafkaconsumer.VerifNewKafkaConsumer(sc, topic, sendCh, int(maxLag), m, rc, ctx)
 	if history != "" && len(tps) > 0 {
 		// an earlier attempt on the same consumer, against a client in another state; it skips nothing
@@ -190,6 +211,21 @@ func execOffsets(input string) string {
 			sc.committed[tp.Partition] = int64(7 + 3*i)
 			sc.high[tp.Partition] = int64(7 + 3*i)
 			sc.low[tp.Partition] = 0
+		}
+		if history[0] == 'f' {
+			// an earlier assignment that filed requests itself: same committed offsets, lower high watermarks, so whatever it
+			// filed is covered by what the judged call must file (only when nothing is trimmed)
+			for _, tp := range tps {
+				delete(sc.committed, tp.Partition)
+				if c, ok := saved.committed[tp.Partition]; ok {
+					sc.committed[tp.Partition] = c
+				}
+				stored := saved.committed[tp.Partition]
+				if stored < 0 {
+					stored = 0
+				}
+				sc.high[tp.Partition] = stored + (saved.high[tp.Partition]-stored)/2
+			}
 		}
 		switch history[0] {
 		case 'w':
